@@ -11,7 +11,7 @@ THEOREMS = {
     'C05': ['C01_getter_exact', 'C02_setter_exact', 'C01_generator_model_every_getter', 'C02_generator_model_every_setter'],
     'C06': ['C06_raw_value_exact', 'C06_new_with_raw_value_exact', 'C06_storage_minimal', 'C06_generator_model_raw_value', 'C06_generator_model_new_with_raw_value'],
     'C07': ['C07_new_returns_the_variant_with_that_discriminant', 'C07_err_when_no_variant', 'C07_raw_then_new',
-            'C07_new_then_raw', 'C07_never_panics', 'C10_no_variant_is_unrepresentable'],
+            'C07_new_then_raw', 'C07_never_panics', 'C10_no_variant_is_unrepresentable', 'C07_real_match_is_the_model_conversion'],
     'C08': ['C01_getter_exact', 'C02_setter_exact', 'C01_generator_model_every_getter', 'C02_generator_model_every_setter'],
     'C09': ['C09_accept_iff_valid', 'C09_field_accept_iff_valid'],
     'C10': ['C10_enum_accept_iff_valid', 'C10_exhaustive_claims_are_sound', 'C10_no_variant_is_unrepresentable'],
@@ -23,7 +23,8 @@ THEOREMS = {
     'C13': ['C13_builder_is_the_with_chain_from_the_default', 'C13_every_argument_reads_back',
             'C13_uncovered_bits_keep_the_default', 'C12_real_code_any_history', 'C12_run_obligations_give_setters_ok'],
     'C14': ['C14_overlap_test_is_exact', 'C14_offered_iff_sound', 'C14_chain_masks_strictly_grow',
-            'C14_only_the_complete_chain_reaches_build', 'C14_the_complete_chain_typechecks'],
+            'C14_only_the_complete_chain_reaches_build', 'C14_the_complete_chain_typechecks',
+            'C14_build_typechecks_iff_every_field_supplied_in_order'],
     'C15': ['C15_everything_but_set_is_const', 'C15_builder_steps_are_const', 'C16_seval_total_profile_independent'],
     'C17': ['C17_field_api_is_exactly_what_the_specifier_says', 'C17_whole_api_surface',
             'C17_only_setters_of_writable_fields_mutate', 'C17_writes_elsewhere_do_not_touch_a_field', 'C02_frame'],
